@@ -16,7 +16,7 @@ FaultsFull ==
       F("frag", 1, 2, "tailx"), F("frag", 1, 2, "tailc"),
       F("dup", 1, 0, 0), F("ansg", 1, 0, 0), F("gans", 1, 0, 0), F("dupx", 1, 0, 2), F("ansx", 1, 0, 2),
       F("pclose", 2, 0, 0), F("eof", 2, 0, 0),
-      F("err", 2, 0, 101), F("err", 2, 0, 111) }
+      F("err", 2, 0, 101), F("err", 2, 0, 111), F("serr", 1, 0, 101) }
 
 \* C06's assumption: each transmission is answered at most once and before its timeout
 FaultsAssume ==
@@ -25,7 +25,8 @@ FaultsAssume ==
 \* a reduced alphabet for longer histories (C05, C10)
 FaultsHist ==
     { F("drop", 0, 0, 0), F("ans", 1, 0, 0), F("garb", 1, 0, 0), F("exc", 1, 0, 2),
-      F("pclose", 2, 0, 0), F("eof", 2, 0, 0), F("err", 2, 0, 101), F("frag", 1, 2, "tail"), F("lone", 1, 0, 0) }
+      F("pclose", 2, 0, 0), F("eof", 2, 0, 0), F("err", 2, 0, 101), F("serr", 1, 0, 101), F("frag", 1, 2, "tail"),
+      F("lone", 1, 0, 0) }
 
 \* alphabet for the instances with user cancellation
 FaultsCancel ==
